@@ -529,6 +529,14 @@ package core
 // the purge lock is created if absent unless forced
 //@ func PurgeLock
 //@   call Put#1 assert [lock-create-if-absent-unless-forced] $key == model.PurgeLock() && ($noOverwrite <==> !options.force)
+// ... and an attempt that is refused leaves the holder's lock where it is (only PurgeUnlock removes it)
+//@   requires stores != nil && getMetaStore(stores) != nil
+//@   only Delete 0
+//@   ensures [a-held-lock-survives-an-unforced-attempt] old(stored(getMetaStore(stores), model.PurgeLock())) && !options.force ==> stored(getMetaStore(stores), model.PurgeLock())
+
+//@ func PurgeUnlock
+//@   requires stores != nil && getMetaStore(stores) != nil
+//@   call Delete#1 assert [the-lock-file] $key == model.PurgeLock() && $self == getMetaStore(stores)
 
 // ---- whole-repository operations (C09): only keys of the named repository are touched ------------
 //@ func DeleteRepo
@@ -591,3 +599,31 @@ package core
 //@   call readSplit#1 bind de = $ret1
 //@   send output#1 assert [missing-descriptor-is-not-an-error] de_set && !errIs(de, iface(storagestatus.ErrNotExists))
 //@   send output#2 assert [only-fetched-splits] de_set && de == nil
+
+// ---- state of a diamond / split as read back (C12: "refused once the diamond is done or canceled")
+// the final-state descriptor is read first; the initial-state one only when the final one DOES NOT
+// EXIST. Any other failure to read the final state is reported: it must not make a terminated diamond
+// (or a completed split) look initialized.
+//@ func (*metaObject).readMetadata
+//@   requires m != nil
+//@   call Get#1 assert [of-path] $key == pth
+//@   call Get#1 bind ge = $ret1
+//@   ensures [propagate] ge_set && ge != nil ==> ret1 != nil
+//@   ensures [not-found-stays-not-found] ge_set && ge != nil && errIs(ge, iface(storagestatus.ErrNotExists)) ==> errIs(ret1, iface(storagestatus.ErrNotExists))
+//@   ensures [other-errors-stay-other] ge_set && ge != nil && !errIs(ge, iface(storagestatus.ErrNotExists)) ==> !errIs(ret1, iface(storagestatus.ErrNotExists))
+
+//@ func (*Diamond).downloadDescriptor
+//@   requires d != nil
+//@   call readMetadata#1 assert [final-state-first] $pth == model.GetArchivePathToFinalDiamond(d.RepoID, d.DiamondDescriptor.DiamondID)
+//@   call readMetadata#1 bind e1 = $ret1
+//@   call readMetadata#2 assert [initial-state-only-when-final-is-absent] e1_set && e1 != nil && errIs(e1, iface(storagestatus.ErrNotExists))
+//@   call readMetadata#2 assert [initial-state-path] $pth == model.GetArchivePathToInitialDiamond(d.RepoID, d.DiamondDescriptor.DiamondID)
+//@   ensures [unreadable-final-state-is-an-error] e1_set && e1 != nil && !errIs(e1, iface(storagestatus.ErrNotExists)) ==> result != nil
+
+//@ func (*Split).downloadDescriptor
+//@   requires s != nil
+//@   call readMetadata#1 assert [final-state-first] $pth == model.GetArchivePathToFinalSplit(s.RepoID, s.DiamondID, s.SplitDescriptor.SplitID)
+//@   call readMetadata#1 bind e1 = $ret1
+//@   call readMetadata#2 assert [initial-state-only-when-final-is-absent] e1_set && e1 != nil && errIs(e1, iface(storagestatus.ErrNotExists))
+//@   call readMetadata#2 assert [initial-state-path] $pth == model.GetArchivePathToInitialSplit(s.RepoID, s.DiamondID, s.SplitDescriptor.SplitID)
+//@   ensures [unreadable-final-state-is-an-error] e1_set && e1 != nil && !errIs(e1, iface(storagestatus.ErrNotExists)) ==> result != nil
